@@ -174,3 +174,34 @@ def GroupingWithConditionalMember(payload):
 @trigger
 def NestedTimeLimiterCall(payload):
     return (payload.get('rec') or {}).get('kind') == 'nested'
+
+
+def _perm_nodes(g):
+    perm = set(g.get('start', []))
+    while True:
+        T = set(perm)
+        for s, t in g.get('der', []):
+            if s in perm:
+                T.add(t)
+        if T == perm:
+            return perm
+        perm = T
+
+
+def _cons_member_not_permanent(g, types):
+    perm = _perm_nodes(g)
+    for c in g.get('cons', []):
+        if c['type'] in types and any(g['ch'][m-1]['origin'] not in perm for m in c.get('m', [])):
+            return True
+    return False
+
+
+@trigger
+def OrderingConstraintMemberNotPermanent(payload):
+    """An UNORDERED / UNORDERED_NOREPL constraint with a member choice that is not on a permanent node."""
+    return _cons_member_not_permanent(_g(payload), ('unord', 'unordnr'))
+
+
+@trigger
+def LinkedConstraintMemberNotPermanent(payload):
+    return _cons_member_not_permanent(_g(payload), ('linked',))
